@@ -30,6 +30,18 @@ def cbits(c: "array", n):
     return 0 if n <= 0 else (pre_bits(c, n) if c[n - 1] != 0 else cbits(c, n - 1))
 
 
+@lemma
+def cbits_nonneg(c: "array", n: int):
+    """Block lengths are never negative (induction over the number of coefficients)."""
+    ensures(cbits(c, n) >= 0 and pre_bits(c, n) >= 0)
+    decreases(n if n > 0 else 0)
+    unfold(cbits, c, n)
+    unfold(pre_bits, c, n)
+    if n > 0:
+        cbits_nonneg(c, n - 1)
+        use("blen_def", abs(c[n - 1]) + 1)
+
+
 @spec(EP + "calculate_coeffs_bits")
 class _calculate_coeffs_bits:
     args = {"coeffs": "list:int"}
@@ -51,3 +63,237 @@ class _calculate_coeffs_bits:
                              'use("blen_def", abs(content(coeffs)[_k]) + 1)'],
         "loop1.after": ["unfold(cbits, content(coeffs), 0)", "unfold(pre_bits, content(coeffs), 0)"],
     }
+
+
+# ---- quantisation of one set of coefficients, and the block lengths quantize_to_fit compares with its target ----
+
+from vc2_conformance.pseudocode.quantization import forward_quant  # noqa: E402
+from vc2_conformance.encoder.pictures import quantize_coeffs  # noqa: E402
+
+transparent(
+    "vc2_conformance.pseudocode.quantization.forward_quant",
+    "vc2_conformance.pseudocode.quantization.quant_factor",
+    "vc2_conformance.pseudocode.vc2_math.sign",
+)
+
+fields(coeff_values="ref:list:int", quant_matrix_values="ref:list:int")
+
+
+@specfun
+def fq(c, q, m):
+    """Coefficient c coded with slice index q where the quantisation matrix says m: forward_quant with index max(0, q - m)
+    (13.3.1: the matrix value is subtracted from the slice's index, clamped at 0).  Opaque everywhere except in the
+    verification of quantize_coeffs, where it is tied to the real forward_quant."""
+    return forward_quant(c, max(0, q - m))
+
+
+@inline
+def qarr(cv, qm, q):
+    """The coefficients cv coded with slice index q."""
+    return mkarray(lambda i: fq(cv[i], q, qm[i]))
+
+
+@spec(EP + "quantize_coeffs")
+class _quantize_coeffs:
+    args = {"qindex": "int", "coeff_values": "list:int", "quant_matrix_values": "list:int"}
+    result = "list:int"
+    requires = []
+    modifies = []
+    raises = {}
+    ensures = [
+        "is_fresh(result)",
+        "length(result) == min(length(coeff_values), length(quant_matrix_values))",
+        "content(result) == qarr(content(coeff_values), content(quant_matrix_values), qindex)",
+    ]
+    ghost = {"entry": ["define(fq)"]}
+
+
+@specfun
+def qbits(cv: "array", qm: "array", ncv, nqm, q):
+    """Bits a bounded block needs for the min(ncv, nqm) coefficients quantised with index q (opaque: unfolded where the code computes it)."""
+    return cbits(qarr(cv, qm, q), min(ncv, nqm))
+
+
+@inline
+def ceil_to(x, a):
+    return ((x + a - 1) // a) * a
+
+
+@inline
+def set_n(cc):
+    return min(length(cc.coeff_values), length(cc.quant_matrix_values))
+
+
+@inline
+def set_bits(cc, q):
+    return qbits(content(cc.coeff_values), content(cc.quant_matrix_values), length(cc.coeff_values), length(cc.quant_matrix_values), q)
+
+
+@inline
+def total_len(coeff_sets, q, align):
+    """Sum over the 2 (LD: Y, C) or 3 (HQ: Y, C1, C2) coefficient sets of their block lengths, each rounded up to a multiple of align bits."""
+    return (ceil_to(set_bits(coeff_sets[0], q), align) + ceil_to(set_bits(coeff_sets[1], q), align)
+            + (ceil_to(set_bits(coeff_sets[2], q), align) if length(coeff_sets) == 3 else 0))
+
+
+@inline
+def quantised_as(lst, cc, q):
+    """lst holds exactly the coefficients of cc quantised with index q."""
+    return length(lst) == set_n(cc) and content(lst) == qarr(content(cc.coeff_values), content(cc.quant_matrix_values), q)
+
+
+@spec(EP + "quantize_to_fit")
+class _quantize_to_fit:
+    args = {"target_size": "int", "coeff_sets": "list:obj:ComponentCoeffs", "align_bits": "int", "minimum_qindex": "int"}
+    arg_cases = [{"coeff_sets": "list:obj:ComponentCoeffs#2"}, {"coeff_sets": "list:obj:ComponentCoeffs#3"}]
+    result = "tuple:int,list:list:int"
+    requires = ["target_size >= 0", "align_bits >= 1", "minimum_qindex >= 0", "length(coeff_sets) == 2 or length(coeff_sets) == 3"]
+    modifies = []
+    raises = {}
+    ensures = [
+        # the property: the SMALLEST index, not below the requested minimum, whose coefficients fit the budget
+        "result[0] >= minimum_qindex",
+        "total_len(coeff_sets, result[0], align_bits) <= target_size",
+        "forall(minimum_qindex, result[0], lambda q: total_len(coeff_sets, q, align_bits) > target_size, trigger=lambda q: set_bits(coeff_sets[0], q))",
+        # and what is returned is exactly the coefficients quantised with that index
+        "length(result[1]) == length(coeff_sets)",
+        "quantised_as(result[1][0], coeff_sets[0], result[0])",
+        "quantised_as(result[1][1], coeff_sets[1], result[0])",
+        "implies(length(coeff_sets) == 3, quantised_as(result[1][2], coeff_sets[2], result[0]))",
+    ]
+    invariants = {
+        1: ["forall(minimum_qindex, _k, lambda q: total_len(coeff_sets, q, align_bits) > target_size, trigger=lambda q: set_bits(coeff_sets[0], q))"],
+    }
+    ghost = {
+        "loop1.body_start": [
+            "unfold(qbits, content(coeff_sets[0].coeff_values), content(coeff_sets[0].quant_matrix_values), length(coeff_sets[0].coeff_values), length(coeff_sets[0].quant_matrix_values), _k)",
+            "unfold(qbits, content(coeff_sets[1].coeff_values), content(coeff_sets[1].quant_matrix_values), length(coeff_sets[1].coeff_values), length(coeff_sets[1].quant_matrix_values), _k)",
+            "unfold(qbits, content(coeff_sets[2].coeff_values), content(coeff_sets[2].quant_matrix_values), length(coeff_sets[2].coeff_values), length(coeff_sets[2].quant_matrix_values), _k)",
+        ],
+    }
+
+
+@inline
+def ceil_units(x, a):
+    """Smallest number of a-bit units that hold x bits."""
+    return (x + a - 1) // a
+
+
+@spec(EP + "calculate_hq_length_field")
+class _calculate_hq_length_field:
+    args = {"coeffs": "list:int", "slice_size_scaler": "int"}
+    result = "int"
+    requires = ["slice_size_scaler >= 1"]
+    modifies = []
+    raises = {}
+    ensures = ["result == ceil_units(cbits(content(coeffs), length(coeffs)), 8 * slice_size_scaler)"]
+
+
+fields(slice_y_length="int", slice_c1_length="int", slice_c2_length="int", qindex="int",
+       y_transform="ref:list:int", c1_transform="ref:list:int", c2_transform="ref:list:int", c_transform="ref:list:int")
+
+
+@inline
+def lbits(lst):
+    return cbits(content(lst), length(lst))
+
+
+@spec(EP + "make_hq_slice")
+class _make_hq_slice:
+    args = {"y_transform": "list:int", "c1_transform": "list:int", "c2_transform": "list:int", "total_length": "optint", "qindex": "int",
+            "slice_size_scaler": "int"}
+    result = "dict:HQSlice"
+    requires = [
+        "slice_size_scaler >= 1",
+        # when the slice has a fixed size, the caller has made the three blocks fit it and the size fits an 8-bit field
+        "implies(total_length is not None, ceil_units(lbits(y_transform), 8 * slice_size_scaler) + ceil_units(lbits(c1_transform), 8 * slice_size_scaler)"
+        " + ceil_units(lbits(c2_transform), 8 * slice_size_scaler) <= total_length and total_length <= 255)",
+    ]
+    modifies = []
+    raises = {}
+    ensures = [
+        "is_fresh(result)",
+        "has(result, 'qindex') and has(result, 'slice_y_length') and has(result, 'slice_c1_length') and has(result, 'slice_c2_length')",
+        "has(result, 'y_transform') and has(result, 'c1_transform') and has(result, 'c2_transform')",
+        "result['qindex'] == qindex",
+        "result['y_transform'] == y_transform and result['c1_transform'] == c1_transform and result['c2_transform'] == c2_transform",
+        # every component's block fits the space its length field announces (lengths count slice_size_scaler-byte units)
+        "result['slice_y_length'] * 8 * slice_size_scaler >= lbits(y_transform)",
+        "result['slice_c1_length'] * 8 * slice_size_scaler >= lbits(c1_transform)",
+        "result['slice_c2_length'] * 8 * slice_size_scaler >= lbits(c2_transform)",
+        "result['slice_y_length'] >= 0 and result['slice_c1_length'] >= 0 and result['slice_c2_length'] >= 0",
+        # fixed-size slice: the three fields add up to exactly the slice's size and each fits its 8-bit field
+        "implies(total_length is not None, result['slice_y_length'] + result['slice_c1_length'] + result['slice_c2_length'] == total_length)",
+        "implies(total_length is not None, result['slice_y_length'] <= 255 and result['slice_c1_length'] <= 255 and result['slice_c2_length'] <= 255)",
+        # free-size slice: the smallest fields that hold the blocks
+        "implies(total_length is None, result['slice_y_length'] == ceil_units(lbits(y_transform), 8 * slice_size_scaler)"
+        " and result['slice_c1_length'] == ceil_units(lbits(c1_transform), 8 * slice_size_scaler)"
+        " and result['slice_c2_length'] == ceil_units(lbits(c2_transform), 8 * slice_size_scaler))",
+    ]
+    ghost = {
+        "entry": [
+            "cbits_nonneg(content(y_transform), length(y_transform))",
+            "cbits_nonneg(content(c1_transform), length(c1_transform))",
+            "cbits_nonneg(content(c2_transform), length(c2_transform))",
+            'use("ceil_units_bounds", lbits(y_transform), 8 * slice_size_scaler)',
+            'use("ceil_units_bounds", lbits(c1_transform), 8 * slice_size_scaler)',
+            'use("ceil_units_bounds", lbits(c2_transform), 8 * slice_size_scaler)',
+        ],
+    }
+
+
+@spec(EP + "make_ld_slice")
+class _make_ld_slice:
+    args = {"y_transform": "list:int", "c_transform": "list:int", "qindex": "int"}
+    result = "dict:LDSlice"
+    requires = []
+    modifies = []
+    raises = {}
+    ensures = [
+        "is_fresh(result)",
+        "has(result, 'qindex') and has(result, 'slice_y_length') and has(result, 'y_transform') and has(result, 'c_transform')",
+        "result['qindex'] == qindex and result['y_transform'] == y_transform and result['c_transform'] == c_transform",
+        # the luma block gets exactly the bits it needs; the colour-difference block gets the rest of the slice
+        "result['slice_y_length'] == lbits(y_transform)",
+    ]
+
+
+@spec(EP + "get_safe_lossy_hq_slice_size_scaler")
+class _get_safe_scaler:
+    args = {"picture_bytes": "int", "num_slices": "int"}
+    result = "int"
+    requires = ["num_slices >= 1"]
+    modifies = []
+    raises = {}
+    ensures = [
+        "result >= 1",
+        # large enough: the biggest slice's payload, in units of `result` bytes, fits an 8-bit length field ...
+        "255 * result >= ceil_units(picture_bytes, num_slices) - 4",
+        # ... and the smallest such scaler
+        "result == 1 or 255 * (result - 1) < ceil_units(picture_bytes, num_slices) - 4",
+    ]
+
+
+# ---- native generators for the bounded stand-in (used when an obligation is undecided, and by bounded/c14_*.py) ----
+
+
+def _gen_coeffs(rng, n=None):
+    n = rng.randint(0, 6) if n is None else n
+    return [rng.choice([0, 0, rng.randint(-3, 3), rng.randint(-40, 40), rng.randint(-5000, 5000)]) for _ in range(n)]
+
+
+def _gen_component(rng):
+    from vc2_conformance.encoder.pictures import ComponentCoeffs
+
+    n = rng.randint(0, 5)
+    return ComponentCoeffs(coeff_values=_gen_coeffs(rng, n), quant_matrix_values=[rng.randint(0, 6) for _ in range(n)])
+
+
+GENERATORS = {
+    "list:int": _gen_coeffs,
+    "list:obj:ComponentCoeffs": lambda rng: [_gen_component(rng) for _ in range(rng.choice([2, 3]))],
+    "param:minimum_qindex": lambda rng: rng.choice([0, 0, rng.randint(0, 12), rng.randint(0, 60)]),
+    "param:target_size": lambda rng: rng.choice([rng.randint(0, 24), rng.randint(0, 200)]),
+    "param:align_bits": lambda rng: rng.choice([1, 1, 8, 8, 16, rng.randint(1, 24)]),
+    "param:slice_size_scaler": lambda rng: rng.choice([1, 1, 2, 3, rng.randint(1, 9)]),
+}
